@@ -355,6 +355,22 @@ fn run_one(cs: &mut Cases, class: &str, defs: &[Def], type_order: &[usize], args
                 let j = got.chars().zip(want.chars()).position(|(a, b)| a != b).unwrap_or(0);
                 let key = if want.as_bytes().get(j) == Some(&b'0') { "c08:unsafe-marked-safe" } else { "c08:safe-not-marked" };
                 cs.fail_last(key, format!("argument {} is generated {} but the rule says {} (flags {} vs {})", j, if got.as_bytes().get(j) == Some(&b'1') { "safe" } else { "not safe" }, if want.as_bytes().get(j) == Some(&b'1') { "safe" } else { "not safe" }, got, want));
+            } else {
+                // the decision depends on the definition alone: the other configurations of the generator give the
+                // same flags
+                let other = GenCfg { exhaustive: true, serialize_empty_collections: true, strip_prefix: None, build_crate: None };
+                if let Ok(eps2) = generate(&irv, &other).and_then(|tree| endpoints(&tree)) {
+                    let got2: String = (0..args.len())
+                        .map(|j| match eps2.iter().filter(|e| !e.trait_name.starts_with("Async") && e.method == format!("ep{}", j)).flat_map(|e| e.args.iter()).find(|a| a.ident == "arg") {
+                            Some(a) if a.safe => '1',
+                            Some(_) => '0',
+                            None => '?',
+                        })
+                        .collect();
+                    if got2 != got {
+                        cs.fail_last("c08:depends-on-configuration", format!("the flags are {} in the default configuration and {} with `exhaustive` and `serializeEmptyCollections`", got, got2));
+                    }
+                }
             }
         }
     }
@@ -374,6 +390,17 @@ pub fn cases(seed: u64, tier: Tier) -> Cases {
         let args: Vec<Arg> = order.iter().map(|&i| a(i)).collect();
         run_one(&mut cs, "two-cycle", &cyc, &[0, 1, 2], &args, 3);
         run_one(&mut cs, "two-cycle", &cyc, &[2, 1, 0], &args, 1);
+    }
+    // a chain of 81 types, each holding the next, the last one a SAFE string: safe all the way up, whatever is asked
+    // first (no depth at which the walk gives up)
+    {
+        let chain: Vec<Def> = (0..81).map(|i| if i < 80 { Def::Object(vec![(Annot::None, Ty::Ref(i + 1))]) } else { Def::Object(vec![(Annot::Safe, Ty::Prim("STRING"))]) }).collect();
+        let order: Vec<usize> = (0..81).collect();
+        run_one(&mut cs, "deep-chain", &chain, &order, &[a(0)], 1);
+        run_one(&mut cs, "deep-chain", &chain, &order, &[a(40), a(0), a(80)], 2);
+        let mut unsafe_chain = chain.clone();
+        unsafe_chain[80] = Def::Object(vec![(Annot::None, Ty::Prim("STRING"))]);
+        run_one(&mut cs, "deep-chain", &unsafe_chain, &order, &[a(0), a(79)], 1);
     }
     // rings of 2..4 types in which every node is an object or an alias of the next node; exactly one object carries
     // one more member (an undeclared string, a SAFE string, or an enum reference) placed before or after its ring
